@@ -47,6 +47,12 @@ func c02(c *Ctx) {
 			if callee := cl.Common().StaticCallee(); callee != nil && callee.Pkg == f.Pkg && callee.Pkg != nil {
 				walk(callee)
 			}
+			// an in-package function handed over as a value (a named comparator) is part of the tree
+			for _, a := range cl.Common().Args {
+				if fv, isF := a.(*ssa.Function); isF && fv.Pkg == f.Pkg && fv.Pkg != nil {
+					walk(fv)
+				}
+			}
 		}
 	}
 	for _, f := range fns {
@@ -70,7 +76,7 @@ func c02(c *Ctx) {
 				}
 				if cl, ok := in.(ssa.CallInstruction); ok {
 					n := an.CalleeName(cl.Common())
-					okCall := strings.HasPrefix(n, "builtin.") || strings.HasPrefix(n, "math/bits.") || strings.HasPrefix(n, "sort.") || strings.Contains(n, "/elasticquota/core.") || strings.Contains(n, "/elasticquota/core)")
+					okCall := strings.HasPrefix(n, "builtin.") || strings.HasPrefix(n, "math/bits.") || strings.HasPrefix(n, "sort.") || strings.HasPrefix(n, "slices.") || strings.HasPrefix(n, "cmp.") || n == "strings.Compare" || strings.Contains(n, "/elasticquota/core.") || strings.Contains(n, "/elasticquota/core)")
 					if cl.Common().StaticCallee() == nil && !cl.Common().IsInvoke() {
 						if _, isB := cl.Common().Value.(*ssa.Builtin); isB {
 							okCall = true
@@ -113,6 +119,58 @@ func c02(c *Ctx) {
 		}
 		_ = tail
 		r.Check(lastKey == "name" && len(keys) >= 1 && strings.HasPrefix(keys[0], "remainder"), "SORT", s.Encl+"/name-tiebreak", c.Pos(s.Call.Pos()), "order: "+strings.Join(keys, ",")+" then name", "the remainder sort does not end in the name tiebreak (keys: "+strings.Join(keys, ",")+", last: "+lastKey+"): equal remainders are ordered by map iteration order")
+	}
+	if !found {
+		// the other sort idiom: slices.SortFunc / SortStableFunc with a three-way comparator (literal or named function)
+		for _, pk := range c.P.Pkgs {
+			if !strings.HasSuffix(pk.PkgPath, quotaCorePkg) {
+				continue
+			}
+			decls := map[types.Object]*ast.FuncDecl{}
+			for _, f := range pk.Syntax {
+				for _, d := range f.Decls {
+					if fd, ok := d.(*ast.FuncDecl); ok && fd.Body != nil {
+						decls[pk.TypesInfo.Defs[fd.Name]] = fd
+					}
+				}
+			}
+			for _, fd := range decls {
+				if fd.Name.Name != "computeHamiltonDeltas" || fd.Recv != nil {
+					continue
+				}
+				ast.Inspect(fd.Body, func(x ast.Node) bool {
+					call, ok := x.(*ast.CallExpr)
+					if !ok || len(call.Args) != 2 {
+						return true
+					}
+					sel, ok := call.Fun.(*ast.SelectorExpr)
+					if !ok {
+						return true
+					}
+					obj, ok := pk.TypesInfo.Uses[sel.Sel].(*types.Func)
+					if !ok || obj.Pkg() == nil || obj.Pkg().Path() != "slices" || (obj.Name() != "SortFunc" && obj.Name() != "SortStableFunc") {
+						return true
+					}
+					var body *ast.BlockStmt
+					var ftype *ast.FuncType
+					switch a := ast.Unparen(call.Args[1]).(type) {
+					case *ast.FuncLit:
+						body, ftype = a.Body, a.Type
+					case *ast.Ident:
+						if d := decls[pk.TypesInfo.Uses[a]]; d != nil {
+							body, ftype = d.Body, d.Type
+						}
+					}
+					if body == nil {
+						return true
+					}
+					found = true
+					keys, last := threeWayKeys(body, ftype)
+					r.Check(last == "name" && len(keys) >= 1 && strings.HasPrefix(keys[0], "remainder"), "SORT", "pkg/scheduler/plugins/elasticquota/core.computeHamiltonDeltas/name-tiebreak", c.Pos(call.Pos()), "order: "+strings.Join(keys, ",")+" then name", "the remainder sort does not end in the name tiebreak (keys: "+strings.Join(keys, ",")+", last: "+last+"): equal remainders are ordered by map iteration order")
+					return true
+				})
+			}
+		}
 	}
 	if !found {
 		r.Unknown("SORT", "computeHamiltonDeltas/name-tiebreak", "", "sort site not found")
@@ -706,4 +764,55 @@ func fitsGuard(prod *ssa.BinOp) bool {
 		}
 	}
 	return false
+}
+
+// threeWayKeys reads a three-way comparator "func(a, b T) int": a chain of "if a.k != b.k { return <compare of .k> }"
+// (or "if c := cmp.Compare(a.k, b.k); c != 0 { return c }") closed by "return <compare of a.last, b.last>". It returns
+// the field names of the guarded keys in order and the field of the closing comparison ("" when the shape is different).
+func threeWayKeys(body *ast.BlockStmt, ft *ast.FuncType) (keys []string, last string) {
+	fieldOfCompare := func(e ast.Expr) string {
+		call, ok := ast.Unparen(e).(*ast.CallExpr)
+		if !ok || len(call.Args) != 2 {
+			return ""
+		}
+		x, y := selName(call.Args[0]), selName(call.Args[1])
+		if x == "" || x != y {
+			return ""
+		}
+		return x
+	}
+	for i, st := range body.List {
+		switch s := st.(type) {
+		case *ast.IfStmt:
+			if s.Else != nil || len(s.Body.List) != 1 {
+				return nil, ""
+			}
+			ret, ok := s.Body.List[0].(*ast.ReturnStmt)
+			if !ok || len(ret.Results) != 1 {
+				return nil, ""
+			}
+			k := ""
+			if s.Init != nil {
+				if as, ok := s.Init.(*ast.AssignStmt); ok && len(as.Rhs) == 1 {
+					k = fieldOfCompare(as.Rhs[0])
+				}
+			} else if be, ok := ast.Unparen(s.Cond).(*ast.BinaryExpr); ok && be.Op == token.NEQ {
+				if x, y := selName(be.X), selName(be.Y); x != "" && x == y && fieldOfCompare(ret.Results[0]) == x {
+					k = x
+				}
+			}
+			if k == "" {
+				return nil, ""
+			}
+			keys = append(keys, k)
+		case *ast.ReturnStmt:
+			if i != len(body.List)-1 || len(s.Results) != 1 {
+				return nil, ""
+			}
+			last = fieldOfCompare(s.Results[0])
+		default:
+			return nil, ""
+		}
+	}
+	return keys, last
 }
